@@ -23,6 +23,8 @@ type WriteBufItem[K comparable, V any] struct {
 	rechedule  bool
 	fromNVM    bool
 	hash       uint64
+	// closed by the maintenance goroutine once the batch containing this WAIT item is applied
+	wait chan struct{}
 }
 
 type MetaData[K comparable, V any] struct {
